@@ -188,3 +188,79 @@ Proof.
   intros. unfold apierror_Error_Error. destruct err; cbn [isNone negb]; [reflexivity|].
   destruct (st =? 0); [reflexivity|]. rewrite gen_bytes_eqb_nil. destruct text; reflexivity.
 Qed.
+
+(* ================================================================== *)
+(* phase 2: the scan over all Accept header values and their comma-separated elements
+   (rwriter.New L43-L70) is the model's scan_values / scan_elems (repaired: every element is
+   parsed, also after both media types were accepted) *)
+Definition mt_text (e : mt) : list N := mt_bytes e.    (* what mime.ParseMediaType returns for a well-formed element *)
+
+(* reading: a header value is given by the list of its elements (strings.Split), an element by
+   its class; ParseMediaType fails exactly on MTErr *)
+Section Scan.
+  Variable M : Type.
+  Variable m0 : M.
+  Variable split : list N -> list N -> list (list N).
+  Variable parse : list N -> list N * M * option string.
+  Variable elems : list N -> list mt.           (* the classes of the elements of a header value *)
+  Variable enc : mt -> list N.                  (* the text of an element of that class *)
+  Hypothesis split_ok : forall v, split v (bytes_of_string ",") = map enc (elems v).
+  Hypothesis parse_ok : forall e, parse (enc e) =
+    match e with MTErr => ([], m0, Some "mime: invalid media parameter"%string) | _ => (mt_bytes e, m0, None) end.
+
+  Definition bad_accept : string := "return nil, apierror.New(errors.New(""invalid Accept header""), http.StatusBadRequest)".
+
+  Lemma scan_elems_loop : forall (prefer : bool) (K : bool -> bool -> frag (bool * bool)) (l : list mt) (nd ok sat : bool),
+    match scan_elems prefer nd ok sat l with
+    | Some (a, b) => rwriter_New_accept_scan_loop_2 M parse prefer (fun x y _ => K x y) (map enc l) nd ok sat = K a b
+    | None => exists p, rwriter_New_accept_scan_loop_2 M parse prefer (fun x y _ => K x y) (map enc l) nd ok sat = FReturn bad_accept p
+    end.
+  Proof.
+    intros prefer K. induction l as [|e r IH]; intros nd ok sat; [reflexivity|].
+    cbn [map rwriter_New_accept_scan_loop_2 scan_elems]. rewrite parse_ok.
+    destruct e; cbn [isNone negb]; try (eexists; reflexivity);
+      (destruct sat; [apply IH|]);
+      destruct prefer, nd, ok; cbn; apply IH.
+  Qed.
+
+  Lemma scan_values_loop : forall (prefer : bool) (K : bool -> bool -> frag (bool * bool)) (vs : list (list N)) (nd ok : bool),
+    match scan_values (fun a b => scan_elems prefer a b false) nd ok (map elems vs) with
+    | Some (a, b) => rwriter_New_accept_scan_loop_1 M parse split prefer K vs nd ok = K a b
+    | None => exists p, rwriter_New_accept_scan_loop_1 M parse split prefer K vs nd ok = FReturn bad_accept p
+    end.
+  Proof.
+    intros prefer K. induction vs as [|v r IH]; intros nd ok; [reflexivity|].
+    cbn [map rwriter_New_accept_scan_loop_1 scan_values]. rewrite split_ok.
+    pose proof (scan_elems_loop prefer (fun a b => rwriter_New_accept_scan_loop_1 M parse split prefer K r a b) (elems v) nd ok false) as H.
+    destruct (scan_elems prefer nd ok false (elems v)) as [[a b]|].
+    - rewrite H. apply IH.
+    - exact H.
+  Qed.
+
+  (* the whole scan: the flags negotiate_with starts its verdict from, or "invalid Accept header" *)
+  Theorem tie_accept_scan : forall (prefer : bool) (accepts : list (list N)),
+    match scan_values (fun a b => scan_elems prefer a b false) false false (map elems accepts) with
+    | Some (nd, ok) => rwriter_New_accept_scan M parse split accepts false false prefer = FFall (nd, ok)
+    | None => exists p, rwriter_New_accept_scan M parse split accepts false false prefer = FReturn bad_accept p
+    end.
+  Proof.
+    intros. unfold rwriter_New_accept_scan.
+    exact (scan_values_loop prefer (fun a b => FFall (a, b)) accepts false false).
+  Qed.
+End Scan.
+
+(* apierror.Error.Text: "<status>[ <status text>][: <message>]", assembled from at most five parts *)
+Theorem Error_Text_table : forall (msg : list N) (sprintf : list N -> Z -> list N) (stext : Z -> list N)
+    (join : list (list N) -> list N -> list N) (err : option string) (st : Z),
+  apierror_Error_Text msg sprintf stext join err st =
+  join ((if st =? 0 then []
+         else sprintf (bytes_of_string "%d") st :: (if is_nil (stext st) then [] else [bytes_of_string " "; stext st]))
+        ++ (match err with
+            | None => []
+            | Some _ => (if st =? 0 then [] else [bytes_of_string ": "]) ++ [msg]
+            end))%list [].
+Proof.
+  intros. unfold apierror_Error_Text. destruct (st =? 0) eqn:E; cbn [negb app].
+  - destruct err; reflexivity.
+  - rewrite gen_bytes_eqb_nil. destruct (stext st) as [|c r]; cbn [is_nil negb app]; destruct err; reflexivity.
+Qed.
